@@ -12,6 +12,7 @@ import (
 	"math/big"
 	"runtime"
 	"strings"
+	"time"
 
 	"verifsim/sim/rt"
 )
@@ -165,4 +166,42 @@ func (s *ShortReader) Read(p []byte) (int, error) {
 	k, err := s.R.Read(p[:n])
 	s.pos += k
 	return k, err
+}
+
+// Yielding makes every read of a randomness source a scheduling point: a read
+// from the operating system's generator is a system call, other goroutines of
+// the process run meanwhile. Used where several sessions of one process share a
+// source.
+//
+// StallOneIn > 0: one read in StallOneIn (tape-chosen, stream "fault") takes a
+// millisecond of virtual time before or after the bytes were produced - the
+// generator of a starved or busy machine - so that everything else in the
+// process runs until it blocks while this caller is inside Read.
+type Yielding struct {
+	R          io.Reader
+	StallOneIn int
+	Stalls     int
+}
+
+// Read implements io.Reader.
+func (y *Yielding) Read(p []byte) (int, error) {
+	if !rt.Active() {
+		return y.R.Read(p)
+	}
+	stall := 0
+	if y.StallOneIn > 0 && rt.Choose(rt.SFault, y.StallOneIn) == 0 {
+		stall = 1 + rt.Choose(rt.SFault, 2)
+		y.Stalls++
+		rt.Reach("randomness-source.stalled-read")
+	}
+	rt.Yield()
+	if stall == 1 {
+		rt.Sleep(time.Millisecond)
+	}
+	n, err := y.R.Read(p)
+	rt.Yield()
+	if stall == 2 {
+		rt.Sleep(time.Millisecond)
+	}
+	return n, err
 }
